@@ -15,6 +15,15 @@ Supported subset (what the leaf functions of api.py's row-group filter use):
   isinstance(x, np.ndarray), np.searchsorted(a, v, side='left'|'right'), x[<int constant>],
   calls of other translated functions (positional/keyword, defaults filled in).
 
+With loops=True (the row-group loop of api.py; target prelude Base/PyObj.v) additionally:
+  for x in e: / for a, b in e:  (body may return / continue; variables assigned in the body that are bound
+                               before the loop are carried from one iteration to the next)
+  a, b = e1, e2               x.attr   x["key"]   x[n:]   x["key"] = e (x a local name: rebinding)
+  [elt for x in e if cond]    hasattr(x, "k")   "sep".join(x)   any(x)   all(x)   tuple displays
+  variables first assigned inside an `if` branch are local to that branch
+  any other call f(...), mod.f(...), obj.method(...) is EXTERNAL: (ext "f" [args]) for a section variable
+  ext : string -> list pv -> res pv  whose behaviour the proofs take as hypotheses.
+
 Semantics of the output: every expression is a term of type `res pv` (error monad); evaluation
 order is Python's (left to right, `and`/`or` short-circuit); falling off the end returns PNone.
 """
@@ -35,7 +44,15 @@ def _loc(node, fn):
 
 
 class Tr:
-    def __init__(self, tree, filename, funcs):
+    def __init__(self, tree, filename, funcs, known=(), loops=False):
+        self.loops = loops
+        self.retw = None          # inside a loop body: how a `return e` is wrapped
+        self.contk = None         # inside a loop body: the text of `continue`
+        self.uses_ext = False
+        self.known = {}
+        for n in tree.body:
+            if isinstance(n, ast.FunctionDef) and n.name in known:
+                self.known[n.name] = n
         self.filename = filename
         self.defs = {}
         for n in tree.body:
@@ -106,7 +123,7 @@ class Tr:
         if isinstance(e, ast.UnaryOp) and isinstance(e.op, ast.USub) and isinstance(e.operand, ast.Constant) \
                 and isinstance(e.operand.value, int) and not isinstance(e.operand.value, bool):
             return "(PInt (%d))" % (-e.operand.value)
-        if isinstance(e, ast.List):
+        if isinstance(e, ast.List) or (self.loops and isinstance(e, ast.Tuple)):
             parts = [self.pure(x) for x in e.elts]
             if all(p is not None for p in parts):
                 return "(PList [%s])" % "; ".join(parts)
@@ -116,8 +133,25 @@ class Tr:
         p = self.pure(e)
         if p is not None:
             return "(Ok %s)" % p
-        if isinstance(e, ast.List):
+        if isinstance(e, ast.List) or (self.loops and isinstance(e, ast.Tuple)):
             return self.binds(e.elts, lambda ns: "(Ok (PList [%s]))" % "; ".join(ns))
+        if self.loops and isinstance(e, ast.Attribute):
+            return self.binds([e.value], lambda ns: '(py_attr %s "%s")' % (ns[0], e.attr))
+        if self.loops and isinstance(e, (ast.ListComp, ast.GeneratorExp)):
+            if len(e.generators) != 1 or e.generators[0].is_async or len(e.generators[0].ifs) > 1 \
+                    or not isinstance(e.generators[0].target, ast.Name):
+                self.bad(e, "comprehension that is not [elt for x in e if cond]")
+            g = e.generators[0]
+            x = g.target.id
+            it = self.expr(g.iter)
+            saved = set(self.env)
+            self.env.add(x)
+            cond = self.expr(g.ifs[0]) if g.ifs else "(Ok (PBool true))"
+            elt = self.expr(e.elt)
+            self.env = saved
+            l, r = self.fresh("t"), self.fresh("t")
+            return ("(bind (bind %s py_iter) (fun %s => bind (py_listcomp %s (fun %s => %s) (fun %s => %s)) (fun %s => Ok (PList %s))))"
+                    % (it, l, l, self.ident(x), cond, self.ident(x), elt, r, r))
         if isinstance(e, ast.Compare):
             if len(e.ops) != 1:
                 self.bad(e, "chained comparison")
@@ -153,6 +187,11 @@ class Tr:
             self.bad(e, "unary operator")
         if isinstance(e, ast.Subscript):
             idx = e.slice
+            if self.loops and isinstance(idx, ast.Constant) and isinstance(idx.value, str):
+                return self.binds([e.value], lambda ns: '(py_attr %s "%s")' % (ns[0], idx.value))
+            if self.loops and isinstance(idx, ast.Slice) and idx.upper is None and idx.step is None \
+                    and isinstance(idx.lower, ast.Constant) and isinstance(idx.lower.value, int) and idx.lower.value >= 0:
+                return self.binds([e.value], lambda ns: "(py_slice_from %s %d%%nat)" % (ns[0], idx.lower.value))
             p = self.pure(idx)
             if p is None or not p.startswith("(PInt"):
                 self.bad(e, "subscript that is not an integer constant")
@@ -171,9 +210,21 @@ class Tr:
                 if isinstance(c, ast.Attribute) and isinstance(c.value, ast.Name) and c.value.id == "np" \
                         and c.attr == "ndarray":
                     return self.binds(e.args[:1], lambda ns: "(py_isinstance_ndarray %s)" % ns[0])
+                if self.loops:
+                    names = [c] if isinstance(c, ast.Name) else (list(c.elts) if isinstance(c, ast.Tuple) else [])
+                    ids = sorted(n.id for n in names if isinstance(n, ast.Name))
+                    if names and len(ids) == len(names) and ids == ["str"]:
+                        return self.binds(e.args[:1], lambda ns: "(py_isinstance_str %s)" % ns[0])
+                    if names and len(ids) == len(names) and set(ids) <= {"list", "tuple"}:
+                        return self.binds(e.args[:1], lambda ns: "(py_isinstance_list %s)" % ns[0])
                 self.bad(e, "isinstance with a class other than np.ndarray")
-            if f.id in self.defs:
-                d = self.defs[f.id]
+            if self.loops and f.id == "hasattr" and len(e.args) == 2 and not e.keywords and isinstance(e.args[1], ast.Constant) \
+                    and isinstance(e.args[1].value, str):
+                return self.binds(e.args[:1], lambda ns: '(py_hasattr %s "%s")' % (ns[0], e.args[1].value))
+            if self.loops and f.id in ("any", "all") and len(e.args) == 1 and not e.keywords:
+                return self.binds(e.args, lambda ns: "(py_%s %s)" % (f.id, ns[0]))
+            if f.id in self.defs or f.id in self.known:
+                d = self.defs[f.id] if f.id in self.defs else self.known[f.id]
                 params = [a.arg for a in d.args.args]
                 defaults = [None] * (len(params) - len(d.args.defaults)) + list(d.args.defaults)
                 actual = dict(zip(params, e.args))
@@ -191,7 +242,8 @@ class Tr:
                         args.append(dflt)
                     else:
                         self.bad(e, "missing argument %r" % p_)
-                self.calls[self.cur].add(f.id)
+                if f.id in self.defs:
+                    self.calls[self.cur].add(f.id)
                 return self.binds(args, lambda ns: "(%s %s)" % (self.ident(f.id), " ".join(ns)))
         if isinstance(f, ast.Attribute) and isinstance(f.value, ast.Name) and f.value.id == "np" \
                 and f.attr == "searchsorted":
@@ -204,6 +256,28 @@ class Tr:
             if len(e.args) != 2:
                 self.bad(e, "np.searchsorted arity")
             return self.binds(e.args, lambda ns: "(py_searchsorted_%s %s %s)" % (side, ns[0], ns[1]))
+        if self.loops:
+            if isinstance(f, ast.Attribute) and isinstance(f.value, ast.Constant) and isinstance(f.value.value, str) and f.attr == "join" \
+                    and len(e.args) == 1 and not e.keywords:
+                return self.binds(e.args, lambda ns: '(py_join %s %s)' % (self.const(f.value)[6:-1], ns[0]))
+            # external call: its behaviour is a hypothesis of the proofs
+            args = list(e.args)
+            if any(isinstance(a, ast.Starred) for a in args) or any(kw.arg is None for kw in e.keywords):
+                self.bad(e, "star arguments")
+            if isinstance(f, ast.Name):
+                name = f.id
+            elif isinstance(f, ast.Attribute) and isinstance(f.value, ast.Name):
+                if f.value.id in self.env:
+                    name, args = "." + f.attr, [f.value] + args            # method of a local object
+                else:
+                    name = f.value.id + "." + f.attr                        # function of a module
+            else:
+                self.bad(e, "call")
+            for kw in e.keywords:
+                name += "," + kw.arg
+                args.append(kw.value)
+            self.uses_ext = True
+            return self.binds(args, lambda ns: '(ext "%s" [%s])' % (name, "; ".join(ns)))
         self.bad(e, "call")
 
     # ---- statements ---------------------------------------------------------------------------
@@ -213,8 +287,15 @@ class Tr:
         for s in stmts:
             if isinstance(s, ast.Assign):
                 for t in s.targets:
-                    if isinstance(t, ast.Name) and t.id not in out:
-                        out.append(t.id)
+                    ns = [t] if isinstance(t, ast.Name) else (list(t.elts) if isinstance(t, ast.Tuple) else
+                                                              ([t.value] if isinstance(t, ast.Subscript) else []))
+                    for n in ns:
+                        if isinstance(n, ast.Name) and n.id not in out:
+                            out.append(n.id)
+            elif isinstance(s, ast.For):
+                for x in Tr.assigned(s.body):
+                    if x not in out:
+                        out.append(x)
             elif isinstance(s, ast.If):
                 for x in Tr.assigned(s.body) + Tr.assigned(s.orelse):
                     if x not in out:
@@ -232,9 +313,37 @@ class Tr:
         if isinstance(s, ast.Pass):
             return self.block(rest, k, ind)
         if isinstance(s, ast.Return):
-            if s.value is None:
-                return "(Ok PNone)"
-            return self.expr(s.value)
+            r = "(Ok PNone)" if s.value is None else self.expr(s.value)
+            return self.retw(r) if self.retw else r
+        if self.loops and isinstance(s, ast.Continue) and self.contk:
+            return self.contk()
+        if self.loops and isinstance(s, ast.For):
+            return self.for_loop(s, rest, k, ind)
+        if isinstance(s, ast.Assign) and len(s.targets) == 1 and isinstance(s.targets[0], ast.Tuple):
+            tg, val = s.targets[0], s.value
+            if not (isinstance(val, ast.Tuple) and len(val.elts) == len(tg.elts) and all(isinstance(n, ast.Name) for n in tg.elts)
+                    and len({n.id for n in tg.elts}) == len(tg.elts)):
+                self.bad(s, "tuple assignment that is not `a, b = e1, e2` over distinct names")
+            later = [{n.id for e_ in val.elts[i + 1:] for n in ast.walk(e_) if isinstance(n, ast.Name)} for i in range(len(val.elts))]
+            if any(t.id in later[i] for i, t in enumerate(tg.elts)):
+                self.bad(s, "tuple assignment whose right-hand side reads a name assigned earlier in the same statement")
+            rhs = [self.expr(e_) for e_ in val.elts]
+            saved = set(self.env)
+            self.env |= {n.id for n in tg.elts}
+            body = self.block(rest, k, ind)
+            self.env = saved | {n.id for n in tg.elts}
+            for term, n in reversed(list(zip(rhs, tg.elts))):
+                body = "(bind %s (fun %s =>\n%s%s))" % (term, self.ident(n.id), pad, body)
+            return body
+        if self.loops and isinstance(s, ast.Assign) and len(s.targets) == 1 and isinstance(s.targets[0], ast.Subscript):
+            t = s.targets[0]
+            if not (isinstance(t.value, ast.Name) and t.value.id in self.env and isinstance(t.slice, ast.Constant)
+                    and isinstance(t.slice.value, str)):
+                self.bad(s, "item assignment that is not name[\"key\"] = e")
+            nm = self.ident(t.value.id)
+            tmp = self.fresh("t")
+            body = self.block(rest, k, ind)
+            return '(bind %s (fun %s => bind (py_setitem %s "%s" %s) (fun %s =>\n%s%s)))' % (self.expr(s.value), tmp, nm, t.slice.value, tmp, nm, pad, body)
         if isinstance(s, ast.Assign):
             if len(s.targets) != 1 or not isinstance(s.targets[0], ast.Name):
                 self.bad(s, "assignment target")
@@ -247,25 +356,90 @@ class Tr:
             return "(bind %s (fun %s =>\n%s%s))" % (rhs, self.ident(name), pad, body)
         if isinstance(s, ast.If):
             vs = self.assigned(s.body) + [x for x in self.assigned(s.orelse) if x not in self.assigned(s.body)]
+            both = []
+            if self.loops:
+                both = [v for v in self.assigned(s.body) if v in self.assigned(s.orelse) and v not in self.env]
+                vs = [v for v in vs if v in self.env or v in both]      # first assigned inside ONE branch: local to it
             for v in vs:
-                if v not in self.env:
+                if v not in self.env and v not in both:
                     self.bad(s, "variable %r first assigned inside an if" % v)
             cond = self.expr(s.test)
             if rest:
                 kn = self.fresh("k")
                 params = " ".join("(%s : pv)" % self.ident(v) for v in vs) or "(_ : unit)"
                 kcall = "(%s %s)" % (kn, " ".join(self.ident(v) for v in vs) or "tt")
+                env0 = set(self.env)
+                self.env = env0 | set(both)
                 rest_t = self.block(rest, k, ind + 1)
+                self.env = set(env0)
                 a = self.block(s.body, kcall, ind + 1)
+                self.env = set(env0)
                 b = self.block(s.orelse, kcall, ind + 1)
+                self.env = set(env0)
                 t = self.fresh("t")
                 return ("(let %s := fun %s =>\n%s  %s in\n%sbind %s (fun %s =>\n%sif truthy %s\n%sthen %s\n%selse %s))"
                         % (kn, params, pad, rest_t, pad, cond, t, pad, t, pad, a, pad, b))
+            env0 = set(self.env)
             a = self.block(s.body, k, ind + 1)
+            self.env = set(env0)
             b = self.block(s.orelse, k, ind + 1)
+            self.env = set(env0)
             t = self.fresh("t")
             return "(bind %s (fun %s =>\n%sif truthy %s\n%sthen %s\n%selse %s))" % (cond, t, pad, t, pad, a, pad, b)
         self.bad(s, "statement")
+
+    def for_loop(self, s, rest, k, ind):
+        pad = "  " * ind
+        if s.orelse:
+            self.bad(s, "for ... else")
+        tg = s.target
+        if isinstance(tg, ast.Name):
+            tnames = [tg.id]
+        elif isinstance(tg, ast.Tuple) and len(tg.elts) == 2 and all(isinstance(n, ast.Name) for n in tg.elts):
+            tnames = [n.id for n in tg.elts]
+        else:
+            self.bad(s, "loop target")
+        carried = [v for v in self.assigned(s.body) if v in self.env and v not in tnames]
+        if any(v in self.env for v in tnames):
+            self.bad(s, "loop target shadows a bound name")
+        tup = lambda: ("tt" if not carried else (self.ident(carried[0]) if len(carried) == 1 else "(%s)" % ", ".join(self.ident(v) for v in carried)))
+        unpack = lambda st: ("" if not carried else ("let %s := %s in " % (self.ident(carried[0]), st) if len(carried) == 1
+                                                    else "let '(%s) := %s in " % (", ".join(self.ident(v) for v in carried), st)))
+        it = self.expr(s.iter)
+        l, x, st, r = self.fresh("t"), self.fresh("t"), self.fresh("t"), self.fresh("t")
+        saved_env, saved_retw, saved_contk = set(self.env), self.retw, self.contk
+        outer_retw = self.retw
+        rv = self.fresh("t")
+        self.retw = lambda e: "(bind %s (fun %s => Ok (Ret %s)))" % (e, rv, rv)
+        self.contk = lambda: "(Ok (Cont %s))" % tup()
+        self.env |= set(tnames)
+        body = self.block(s.body, "(Ok (Cont %s))" % tup(), ind + 2)
+        self.env, self.retw, self.contk = saved_env, saved_retw, saved_contk
+        if len(tnames) == 1:
+            head = "fun %s %s => %s" % (self.ident(tnames[0]), st, unpack(st))
+        else:
+            pr = self.fresh("t")
+            head = "fun %s %s => %sbind (py_unpack2 %s) (fun %s => let '(%s, %s) := %s in " % (
+                x, st, unpack(st), x, pr, self.ident(tnames[0]), self.ident(tnames[1]), pr)
+            body += ")"
+        loop_fn = "(%s\n%s    %s)" % (head, pad, body)
+        if outer_retw is None:
+            # a loop at function level: its body becomes a definition of its own (fname_loopK), with the statement
+            # "what an iteration does is independent of the state the previous iterations left behind" next to it
+            self.nloops += 1
+            lname = "%s_loop%d" % (self.ident(self.cur), self.nloops)
+            envs = sorted(saved_env)
+            sty = "unit" if not carried else ("pv" if len(carried) == 1 else "(%s)%%type" % " * ".join("pv" for _ in carried))
+            ps = " ".join(self.ident(v_) for v_ in envs)
+            self.lifted.append("(* loop over `%s`, carried from one iteration to the next: [%s] *)\nDefinition %s (%s : pv) : pv -> %s -> res (step %s) :=\n  %s%s.\n"
+                               "Definition %s_fresh : Prop := forall (%s x_ : pv) (s1_ s2_ : %s), %s %s x_ s1_ = %s %s x_ s2_.\n"
+                               % (ast.unparse(s.iter), ", ".join(carried), lname, ps, sty, sty, self.uses_all(), loop_fn, lname, ps, sty, lname, ps, lname, ps))
+            loop_fn = "(%s %s)" % (lname, ps)
+        after = self.block(rest, k, ind + 1)
+        v = self.fresh("t")
+        ret_branch = outer_retw("(Ok %s)" % v) if outer_retw else "(Ok %s)" % v
+        return ("(bind (bind %s py_iter) (fun %s =>\n%sbind (py_for %s %s %s) (fun %s =>\n%smatch %s with\n%s| Ret %s => %s\n%s| Cont %s => %s%s\n%send)))"
+                % (it, l, pad, l, tup(), loop_fn, r, pad, r, pad, v, ret_branch, pad, st, unpack(st), after, pad))
 
     def function(self, name):
         d = self.defs[name]
@@ -273,20 +447,46 @@ class Tr:
         if a.vararg or a.kwarg or a.kwonlyargs or a.posonlyargs:
             self.bad(d, "parameter kind")
         for dflt in a.defaults:
-            if not isinstance(dflt, ast.Constant):
+            if not isinstance(dflt, ast.Constant) and not self.loops:
                 self.bad(dflt, "default value")
         self.cur = name
+        self.nloops = 0
+        self.lifted = []
         self.env = {x.arg for x in a.args}
         body = self.block(d.body, "(Ok PNone)", 1)
         params = " ".join(self.ident(x.arg) for x in a.args)
-        return "(* %s:%d *)\nDefinition %s (%s : pv) : res pv :=\n  %s.\n" % (
-            self.filename.split("/")[-1], d.lineno, self.ident(name), params, body)
+        return "".join(self.lifted) + "(* %s:%d *)\nDefinition %s (%s : pv) : res pv :=\n  %s%s.\n" % (
+            self.filename.split("/")[-1], d.lineno, self.ident(name), params, self.uses_all(), body)
+
+    def uses_all(self):
+        """in loops mode every definition mentions every section variable, so that all of them take the same parameters
+        after the section is closed"""
+        if not self.loops:
+            return ""
+        return "let _ := (ext%s) in " % "".join(", " + self.ident(k_) for k_ in sorted(self.known))
 
 
-def translate(source_path, funcs, module_name="GenFilter"):
+def translate(source_path, funcs, module_name="GenFilter", loops=False, known=(), requires=()):
     src = open(source_path).read()
     tree = ast.parse(src, source_path)
-    tr = Tr(tree, source_path, funcs)
+    if "keep_rg" in funcs:
+        # the OR / AND structure of filter_row_groups: the `any([...])` expression that decides about ONE row group (it occurs
+        # twice, for as_idx True / False; both occurrences must be the same) as a function keep_rg(rg, filters, pf) of its own
+        frg = [n for n in tree.body if isinstance(n, ast.FunctionDef) and n.name == "filter_row_groups"]
+        anys = [n for n in ast.walk(frg[0]) if isinstance(n, ast.Call) and isinstance(n.func, ast.Name) and n.func.id == "any"] if frg else []
+        if not anys or len({ast.dump(n) for n in anys}) != 1:
+            raise Unsupported("%s: filter_row_groups: expected the same any([...]) decision once per return, found %d different" % (
+                source_path, len({ast.dump(n) for n in anys})))
+        free = {n.id for n in ast.walk(anys[0]) if isinstance(n, ast.Name)} - {"any", "not", "filter_out_stats", "filter_out_cats"}
+        bound = {g.target.id for n in ast.walk(anys[0]) if isinstance(n, (ast.ListComp, ast.GeneratorExp)) for g in n.generators
+                 if isinstance(g.target, ast.Name)}
+        if not (free - bound) <= {"rg", "filters", "pf"}:
+            raise Unsupported("%s: filter_row_groups: the row-group decision reads %s" % (source_path, sorted(free - bound)))
+        fn = ast.parse("def keep_rg(rg, filters, pf):\n    return 0\n").body[0]
+        fn.body[0].value = anys[0]
+        fn.lineno = anys[0].lineno
+        tree.body.append(ast.fix_missing_locations(fn))
+    tr = Tr(tree, source_path, funcs, known=known, loops=loops)
     texts = {f: tr.function(f) for f in funcs}
     # topological order by calls
     order, seen = [], set()
@@ -304,9 +504,19 @@ def translate(source_path, funcs, module_name="GenFilter"):
         visit(f)
     out = "(* GENERATED by translators/py2coq.py from %s; functions: %s. Do not edit. *)\n" % (
         "fastparquet/" + source_path.split("/")[-1], ", ".join(order))
-    out += "From Coq Require Import ZArith List String.\nFrom Pq Require Import Base.PyVal.\n"
+    out += "From Coq Require Import ZArith List String.\nFrom Pq Require Import Base.PyVal%s.\n" % (" Base.PyObj" if loops else "")
+    for r in requires:
+        out += r + "\n"
     out += "Import ListNotations.\nOpen Scope string_scope.\nOpen Scope Z_scope.\n\n"
+    if loops:
+        out += "Section Ext.\n(* every call that is not translated: (ext \"name[,keyword...]\" [arguments]) *)\nVariable ext : string -> list pv -> res pv.\n"
+        for kname in sorted(tr.known):
+            out += "(* translated elsewhere (PqGen.GenFilter); a parameter here *)\nVariable %s : %sres pv.\n" % (
+                tr.ident(kname), "pv -> " * len(tr.known[kname].args.args))
+        out += "\n"
     out += "\n".join(texts[f] for f in order)
+    if loops:
+        out += "\nEnd Ext.\n"
     return out
 
 
